@@ -1529,8 +1529,28 @@ fn gen_doc(rng: &mut Rng, max_w: i32, max_h: i32, style: u32) -> DocSpec {
         }
     }
     let pages: Vec<usize> = fonts.iter().map(|f| f.0).collect();
-    let palette: Vec<(u8, u8, u8)> = match rng.below(5) {
+    let palette: Vec<(u8, u8, u8)> = match rng.below(7) {
         0 => Palette::dos_default().color_iter().map(|c| c.get_rgb()).collect(),
+        5 => {
+            // the same colour in several slots: a default palette padded with black, or one entry copied over another
+            let mut p: Vec<(u8, u8, u8)> = Palette::dos_default().color_iter().map(|c| c.get_rgb()).collect();
+            if rng.chance(1, 2) {
+                for _ in 0..rng.range(1, 20) {
+                    p.push((0, 0, 0));
+                }
+                p.push((1, 2, 3));
+            } else {
+                let (i, j) = (rng.below(16) as usize, rng.below(16) as usize);
+                p[i] = p[j];
+            }
+            p
+        }
+        6 => {
+            // few distinct colours, many slots
+            let k = rng.range(1, 4) as usize;
+            let cols: Vec<(u8, u8, u8)> = (0..k).map(|_| (rng.next() as u8, rng.next() as u8, rng.next() as u8)).collect();
+            (0..rng.range(2, 40) as usize).map(|_| *rng.pick(&cols)).collect()
+        }
         1 => {
             let mut p: Vec<(u8, u8, u8)> = Palette::dos_default().color_iter().map(|c| c.get_rgb()).collect();
             let i = rng.below(16) as usize;
